@@ -44,6 +44,12 @@ def _scene(e):
     with t.new_transaction() as tx:
         tx.append_data([{"a": 2}])
         tx.append_data([{"a": 3}])
+        tx.append_data([{"a": 4}])
+        tx.commit()
+    # a partial delete: the survivors (rows 2, 3) are carried through a manifest REWRITE
+    from vf.props.singleop import file_of_row, summarize
+    with t.new_transaction() as tx:
+        tx.delete_files([file_of_row(summarize(e), 4)])
         tx.commit()
     with e.world.inspect():
         files = e.files()
